@@ -423,6 +423,29 @@ pub fn cmd_wire_fuzz(a: &HashMap<String, String>) -> i32 {
                     }
                 }
             }
+            // a caret followed by every byte value (colour digits, code page letters, escape letters, everything else), at every
+            // second offset: the hand-written caret scanners fall through to `unreachable!` for letters they list in one place
+            // and not in another
+            for off in (3..base.len().saturating_sub(2)).step_by(2) {
+                for b in 0..=255u8 {
+                    let mut buf = base.clone();
+                    buf[off] = b'^';
+                    buf[off + 1] = b;
+                    if off + 2 < buf.len() && b % 2 == 1 {
+                        buf[off + 2] = b'x';
+                    }
+                    let e = dec_event(mode, &buf, "caret-sweep");
+                    cases += 1;
+                    let k = (e["res"].as_str().unwrap().to_string(), e["after"].as_u64().unwrap() as usize);
+                    if e["res"] == "panic" || e["reenc"] == "panic" || !e["rest_ok"].as_bool().unwrap() {
+                        let _ = writeln!(w, "{}", e);
+                        n += 1;
+                    }
+                    if !seen.contains(&k) {
+                        seen.push(k);
+                    }
+                }
+            }
             let seen_j: Vec<Value> = seen.iter().map(|(r, a)| json!({"res": r, "after": a})).collect();
             let _ = writeln!(w, "{}", json!({"ev": "Hdr", "mode": mode, "sb": base[0], "len": base.len(), "seen": seen_j, "kind": kind, "offset": -1, "cases": cases}));
             n += 1;
